@@ -217,17 +217,17 @@ def r3_append_output_table(ctx, mod):
                   construct='append_output', sample={'prev': prev, 'new': new, 'lines': me.attrs['output']})
 
 
-def r4_input_fifo(ctx, mod, sym):
-    ctx.rule('R4', "decision table of the input tracker closure: queued inputs are returned front-first and removed, "
-                   "the prompt is echoed through print in every non-callable branch, the empty queue yields the fixed "
-                   "default '0', and the value is appended once to the current context's inputs")
+def input_tracker_cells(ctx, mod, sym):
+    """The tracker closure built by _track_inputs, executed abstractly over queues x prompts; yields
+    (queue, prompt, returned, queue left, recorded inputs, echoed, closure node)."""
     outer = mod.func('Sandbox._track_inputs')
     inner = [n for n in outer.body if isinstance(n, ast.FunctionDef)]
     ctx.require(len(inner) == 1, "_track_inputs no longer defines one tracker closure")
     inner = inner[0]
     ctx.analysed_function(mod, inner)
     ctx.require(inner.args.vararg is not None, "tracker signature changed")
-    for queue, args in itertools.product((['a', 'b'], ['only'], []), ((), ('Prompt? ',))):
+    queues = (['a', 'b'], ['only'], [], ['Ada  ', '21'], ['  lead', ''], ['\ttab\t', ' '], ['MiXed Case'])
+    for queue, args in itertools.product(queues, ((), ('Prompt? ',))):
         printed = []
         from ..fdeval import module_resolver
         fd = FD(max_steps=100000, resolver=module_resolver(sym, mod))
@@ -247,16 +247,22 @@ def r4_input_fifo(ctx, mod, sym):
                 raise Inconclusive('_track_inputs did not return a callable (%r)' % (tracker,))
             got = tracker(*args)
         except (Raised, Inconclusive) as e:
-            raise AnalysisError("C15 R4: input tracker outside the decidable fragment: %s" % e)
+            raise AnalysisError("input tracker outside the decidable fragment: %s" % e)
+        yield queue, (args[0] if args else ''), got, me.attrs['inputs'], cx.attrs['inputs'], printed, inner
+
+
+def r4_input_fifo(ctx, mod, sym):
+    ctx.rule('R4', "decision table of the input tracker closure: queued inputs are returned front-first and removed, "
+                   "the prompt is echoed through print in every non-callable branch, the empty queue yields the fixed "
+                   "default '0', and the value is appended once to the current context's inputs")
+    for queue, prompt, got, left, recorded, printed, inner in input_tracker_cells(ctx, mod, sym):
         want = queue[0] if queue else '0'
-        prompt = args[0] if args else ''
         key = 'input[queue=%r,prompt=%r]' % (queue, prompt)
-        ok = got == want and me.attrs['inputs'] == queue[1:] and cx.attrs['inputs'] == [want] and \
-            printed == [(prompt,)]
+        ok = got == want and left == queue[1:] and recorded == [want] and printed == [(prompt,)]
         ctx.check(ok, 'R4', key, mod, inner,
                   "input(%r) with queue %r returned %r, left queue %r, recorded %r, echoed %r; the property requires "
-                  "%r / %r / %r / %r" % (prompt, queue, got, me.attrs['inputs'], cx.attrs['inputs'], printed, want,
-                                         queue[1:], [want], [(prompt,)]),
+                  "%r / %r / %r / %r" % (prompt, queue, got, left, recorded, printed, want, queue[1:], [want],
+                                         [(prompt,)]),
                   "a program calling input() %s" % ('with queued inputs %r' % queue if queue else 'more often than '
                                                     'inputs were queued'), construct='_input_tracker')
     # installed for every execution, bound to the context's inputs
@@ -275,7 +281,7 @@ def r5_queue_operations(ctx, mod):
                    "empty one included) to set_input before executing and leave the queue alone for inputs=None")
     fn = mod.func('Sandbox.set_input')
     ctx.analysed_function(mod, fn)
-    forms = [None, 'x', 5, 2.5, True, ['a', 1], ('b', 'c'), []]
+    forms = [None, 'x', 5, 2.5, True, ['a', 1], ('b', 'c'), [], 'x  ', [' a ', 'b\t', '']]
     for inp, clear, prev in itertools.product(forms, (True, False), ([], ['q'])):
         fd = FD()
         fd.calls['isinstance'] = lambda o, t: isinstance(o, t)
